@@ -64,11 +64,11 @@ def shards(tier: str, seed: int) -> list[dict[str, Any]]:
     specs: list[dict[str, Any]] = []
     n_own = 11 if q else 14
     for i in range(n_own):
-        specs.append({"kind": "own", "i": i, "n": n_own, "count": 230 if q else 4200})
+        specs.append({"kind": "own", "i": i, "n": n_own, "count": 90 if q else 2600})
     n_sh = 3 if q else 4
     for i in range(n_sh):
-        specs.append({"kind": "shared", "i": i, "n": n_sh, "count": 150 if q else 3000})
-    specs.append({"kind": "dyn", "i": 0, "n": 1, "count": 80 if q else 1600})
+        specs.append({"kind": "shared", "i": i, "n": n_sh, "count": 60 if q else 2000})
+    specs.append({"kind": "dyn", "i": 0, "n": 1, "count": 50 if q else 1500})
     specs.append({"kind": "hand", "i": 0, "n": 1})
     return specs
 
@@ -133,7 +133,7 @@ def minimise(case: dict[str, Any], key: str) -> dict[str, Any]:
             t2[name] = "".join(ch)
             return _has(chk, dict(c, templates=t2), key)
 
-        small = ddmin(chunks, test, max_calls=90)
+        small = ddmin(chunks, test, max_calls=220)
         t2 = dict(c["templates"])
         t2[name] = "".join(small)
         c = dict(c, templates=t2)
@@ -141,6 +141,20 @@ def minimise(case: dict[str, Any], key: str) -> dict[str, Any]:
         t2 = {k: v for k, v in c["templates"].items() if k != name}
         if _has(chk, dict(c, templates=t2), key):
             c = dict(c, templates=t2)
+    for name in list(c["templates"]):
+        src = c["templates"][name]
+        if not 2 <= len(src) <= 400:
+            continue
+
+        def test2(ch: list[str], name: str = name) -> bool:
+            t2 = dict(c["templates"])
+            t2[name] = "".join(ch)
+            return _has(chk, dict(c, templates=t2), key)
+
+        small2 = ddmin(list(src), test2, max_calls=260)
+        t2 = dict(c["templates"])
+        t2[name] = "".join(small2)
+        c = dict(c, templates=t2)
     if c["datasets"]:
         d = dict(c["datasets"][0])
         for k in list(d):
